@@ -747,7 +747,11 @@ pub(super) fn perform_generics_specialization(
       ),
       fn_name: main_fn_name.fn_name,
     };
-    rewriter.specialized_function_names.insert(mir_main_fn_name);
+    mir_main_function_names.push(mir_main_fn_name);
+    if !rewriter.specialized_function_names.insert(mir_main_fn_name) {
+      // Already specialized as a callee of an earlier entry point.
+      continue;
+    }
     let original_fn = rewriter.original_functions.get(&mir_main_fn_name).cloned().unwrap();
     let fn_type = mir::FunctionType {
       argument_types: rewriter.rewrite_types(
@@ -764,7 +768,6 @@ pub(super) fn perform_generics_specialization(
     let rewritten =
       rewriter.rewrite_function(heap, &original_fn, mir_main_fn_name, fn_type, &HashMap::new());
     rewriter.specialized_functions.push(rewritten);
-    mir_main_function_names.push(mir_main_fn_name);
   }
   let Rewriter {
     used_string_names,
